@@ -9,6 +9,7 @@ import (
 	"os/exec"
 	"path/filepath"
 	"reflect"
+	"runtime"
 	"sort"
 	"strconv"
 	"strings"
@@ -559,10 +560,72 @@ func c04Worker(args []string) int {
 	return 0
 }
 
+// c04AllocFamilies: texts whose length is n (up to a constant), one long token
+// or one long list per family.
+var c04AllocFamilies = []struct {
+	name string
+	f    func(n int) string
+}{
+	{"whitespace-run", func(n int) string { return "SELECT a" + strings.Repeat(" ", n) + "FROM m" }},
+	{"mixed-blank-run", func(n int) string { return "SELECT a" + strings.Repeat(" \t\r\n", n/4) + "FROM m" }},
+	{"leading-blank-run", func(n int) string { return strings.Repeat("\n", n) + "SELECT a FROM m" }},
+	{"identifier", func(n int) string { return "SELECT " + strings.Repeat("a", n) + " FROM m" }},
+	{"quoted-identifier", func(n int) string { return "SELECT \"" + strings.Repeat("a", n) + "\" FROM m" }},
+	{"string", func(n int) string { return "SELECT a FROM m WHERE x = '" + strings.Repeat("a", n) + "'" }},
+	{"string-of-escapes", func(n int) string { return "SELECT a FROM m WHERE x = '" + strings.Repeat("\\'", n/2) + "'" }},
+	{"unterminated-string", func(n int) string { return "SELECT a FROM m WHERE x = '" + strings.Repeat("a", n) }},
+	{"block-comment", func(n int) string { return "SELECT a /*" + strings.Repeat("c*", n/2) + "*/ FROM m" }},
+	{"line-comment", func(n int) string { return "SELECT a --" + strings.Repeat("c", n) + "\n FROM m" }},
+	{"digits", func(n int) string { return "SELECT " + strings.Repeat("1", n) + " FROM m" }},
+	{"duration-components", func(n int) string { return "SELECT a FROM m WHERE x = " + strings.Repeat("1h", n/2) }},
+	{"regex", func(n int) string { return "SELECT a FROM m WHERE x =~ /" + strings.Repeat("a", n) + "/" }},
+	{"regex-of-escapes", func(n int) string { return "SELECT a FROM m WHERE x =~ /" + strings.Repeat("\\/", n/2) + "/" }},
+	{"field-list", func(n int) string { return "SELECT a" + strings.Repeat(",a", n/2) + " FROM m" }},
+	{"operator-chain", func(n int) string { return "SELECT a FROM m WHERE a" + strings.Repeat("+a", n/2) }},
+	{"and-chain", func(n int) string { return "SELECT a FROM m WHERE a=1" + strings.Repeat(" AND a=1", n/8) }},
+	{"statements", func(n int) string { return strings.Repeat("SELECT a FROM m;", n/16) }},
+	{"parentheses", func(n int) string {
+		return "SELECT " + strings.Repeat("(", n/2) + "a" + strings.Repeat(")", n/2) + " FROM m"
+	}},
+	{"placeholders", func(n int) string { return "SELECT a FROM m WHERE a = $p" + strings.Repeat(" OR a = $p", n/11) }},
+	{"garbage", func(n int) string { return strings.Repeat("\x00\xff$", n/3) }},
+}
+
+// c04Alloc: "time proportional to the input length" observed as work that the
+// step counters do not see - bytes allocated while parsing a text of length n
+// and one of length 4n. Linear work gives a ratio of about 4, quadratic
+// copying about 16; the bound is 8 (ratios are only judged above 1 MB, below
+// that the cost is dominated by constants). Must run while nothing else does.
+func c04Alloc(c *Ctx, only string) {
+	r := c.R
+	measure := func(q string) uint64 {
+		var a, b runtime.MemStats
+		runtime.GC()
+		runtime.ReadMemStats(&a)
+		mon.Try(func() { _, _ = influxql.ParseQuery(q) })
+		runtime.ReadMemStats(&b)
+		return b.TotalAlloc - a.TotalAlloc
+	}
+	const n = 32768
+	for _, fam := range c04AllocFamilies {
+		if only != "" && fam.name != only {
+			continue
+		}
+		a1, a4 := measure(fam.f(n)), measure(fam.f(4*n))
+		r.Eval(2)
+		r.Count("allocation-probes", 1)
+		if a4 > 1<<20 && a4 > 8*a1 {
+			r.Violation("work-not-proportional-to-length", map[string]interface{}{"label": "alloc", "family": fam.name, "input": trunc(fam.f(64), 80), "why": fmt.Sprintf("ParseQuery allocates %d bytes for a %s text of %d bytes and %d bytes for one of %d bytes (ratio %.1f; proportional work gives about 4)", a1, fam.name, len(fam.f(n)), a4, len(fam.f(4*n)), float64(a4)/float64(a1))})
+			continue
+		}
+		r.Count("allocation-proportional", 1)
+	}
+}
+
 func checkC04(c *Ctx) (string, bool, []string) {
 	r := c.R
 	rule := fmt.Sprintf("grammar-derived texts with 1-4 mutations (range deletion / duplication, splices, hostile fragments: %d kinds incl. NUL, invalid UTF-8, unterminated quotes and comments, stray $ and placeholders), random bytes, token soups, generated statements whose name / literal tokens are placeholders bound to every bindable and unbindable value (malformed UTF-8 and truncated multi-byte units in durations, names, strings and regexes; floats at 2^63 and 2^64; odd json.Number spellings); 25%% with parameter maps over every bindable kind and wrong kinds; structured stress (nesting depth 10..10^4 quick / 10^5 thorough for (, f(, -(, subqueries; chains and lists of 10^4/10^5 elements; tokens up to 128 KB quick / 1 MB thorough; unterminated everything). Every input through ParseQuery, ParseStatement, ParseExpr under recover, hook assertions and the step budget %d*(runes+1)+%d; accepted results are printed, walked and rewritten. One child runs 24,000 (400,000) of the mutated texts on 8 goroutines with independent parsers. Children with journals attribute process-fatal events. Non-trivial = non-empty input; distinct by text hash.", len(c04Hostile), c04K, c04C)
-	assume := []string{"time proportional to input length is observed as scanner steps per input rune (logical time), not wall-clock", "printing is exercised for inputs up to 64 KB (String() is quadratic in nesting depth, which the property does not bound)", "a (non-nil result, non-nil error) pair counts as an error return"}
+	assume := []string{"time proportional to input length is observed as scanner steps per input rune (logical time) and as bytes allocated for a text of length n against one of length 4n (21 families of long tokens and long lists), not wall-clock", "printing is exercised for inputs up to 64 KB (String() is quadratic in nesting depth, which the property does not bound)", "a (non-nil result, non-nil error) pair counts as an error return"}
 	if c.Replay != nil {
 		res := &c04result{Counters: map[string]int64{}}
 		label, idx := replayStr(c, "label"), replayInt(c, "idx")
@@ -575,6 +638,9 @@ func checkC04(c *Ctx) (string, bool, []string) {
 			}
 		} else if label == "fatal" {
 			r.Inconclusive("a process-fatal input cannot be replayed in-process; run: ./check C04 thorough")
+			return rule, false, assume
+		} else if label == "alloc" {
+			c04Alloc(c, replayStr(c, "family"))
 			return rule, false, assume
 		} else if label == "direct" {
 			var b []byte
@@ -589,6 +655,7 @@ func checkC04(c *Ctx) (string, bool, []string) {
 		}
 		return rule, false, assume
 	}
+	c04Alloc(c, "") // first, while this process does nothing else
 	bin := os.Getenv("VCHECK_BIN")
 	if bin == "" {
 		bin, _ = os.Executable()
